@@ -1088,32 +1088,94 @@ def _levels(repo, col):
     g = next((n for n in ast.walk(fi.node) if isinstance(n, ast.If)), None)
     col.check(g is not None and unparse(g.test).replace(" ", "") == "p==-1", R, fi, "compute_levels: roots are the branches without parent",
               "p == -1", f"root test is {unparse(g.test) if g else None}", node=g or fi.node)
-    # compute_children_in_level
+    # compute_children_in_level / compute_parents_in_level: decided on the building blocks that occur in the function's terms
+    # (row selected, filter condition, range of levels), whether written as nested loops with append or as comprehensions
+    from sa.termalg import term_rat
+
+    def all_terms(ex_):
+        out = list(ex_.returns)
+        for s_ in ex_.stores:
+            out += [t_ for t_ in (s_.value, s_.key) if t_ is not None] + list(s_.guards)
+        return out
+
+    def lvl_leaf(x):
+        if x.op == "mcall" and x.name in ("max", "amax") and T.find(x, lambda y: y.op == "param" and y.name == "levels") is not None:
+            return Rat.atom("M")
+        if x.op == "elem":
+            return Rat.atom("e:" + x.args[0].key())
+        return None
+
+    def level_range(elem_t):
+        """(lo, hi) of the range an `elem(range(...))` runs over, as forms in M = max(levels)"""
+        rg = elem_t.args[0]
+        if rg.op != "call" or rg.name != "range":
+            return None
+        a_ = [term_rat(x, lvl_leaf) for x in rg.args]
+        return (ZERO, a_[0]) if len(a_) == 1 else (a_[0], a_[1])
+
+    M = Rat.atom("M")
     fi = repo.func(CUF, "compute_children_in_level")
-    src = unparse(fi.node).replace(" ", "")
-    lo = next((n for n in walk_no_nested(fi.node) if isinstance(n, ast.For) and unparse(n.target) == "l"), None)
-    rng = unparse(lo.iter).replace(" ", "") if lo is not None else ""
-    col.add(R, fi, "children levels run from 1 to max(levels)", "DISCHARGED" if rng == "range(1,np.max(levels)+1)" else
-            ("VIOLATED" if rng.startswith("range(") else "UNDECIDED"), rng or "?", node=lo or fi.node,
-            ) if rng == "range(1,np.max(levels)+1)" else col.add(
-        R, fi, "children levels run from 1 to max(levels)", "VIOLATED" if rng.startswith("range(") else "UNDECIDED",
-        f"levels are iterated with `{rng}`; every level 1..max(levels) has children that must be eliminated", node=lo or fi.node)
-    ok = "iflevels[b]==l:" in src and "children_row_and_col[b-1]" in src
-    wrong = "children_row_and_col[b]" in src or "levels[b]==l+1" in src or "levels[b]==l-1" in src
-    col.add(R, fi, "branch b of level l contributes row b-1 of the (child branch, branch point) table",
-            "DISCHARGED" if ok else ("VIOLATED" if wrong else "UNDECIDED"),
-            "children_row_and_col[b - 1] for levels[b] == l" if ok else
-            "row b-1 belongs to child branch b (branch 0 is the root and has no row); another row attaches the wrong branch", node=fi.node)
-    # compute_parents_in_level
+    ts = all_terms(idxm.expander(repo, fi))
+    row = flt = None
+    for t_ in ts:
+        row = row or T.find(t_, lambda x: x.op == "sub" and x.args[0].op == "param" and x.args[0].name == "children_row_and_col")
+        flt = flt or T.find(t_, lambda x: x.op == "cmp" and x.name == "==" and len(x.args) == 2 and
+                            any(a_.op == "sub" and a_.args[0].op == "param" and a_.args[0].name == "levels" for a_ in x.args))
+    if row is None or flt is None:
+        col.unk(R, fi, "compute_children_in_level: row selection and level filter", "building blocks not found", node=fi.node)
+    else:
+        lv_side = next(a_ for a_ in flt.args if a_.op == "sub" and a_.args[0].op == "param" and a_.args[0].name == "levels")
+        l_side = next(a_ for a_ in flt.args if a_ is not lv_side)
+        b_t = lv_side.args[1]
+        try:
+            off = term_rat(row.args[1], lvl_leaf) - term_rat(b_t, lvl_leaf)
+            l_el = T.find(l_side, lambda x: x.op == "elem")
+            rng = level_range(l_el) if l_el is not None else None
+            if rng is not None:
+                sh = term_rat(l_side, lvl_leaf) - term_rat(l_el, lvl_leaf)
+                rng = (rng[0] + sh, rng[1] + sh) if sh.is_const() else None
+        except Und:
+            off, rng = None, None
+        if off is None or rng is None or not off.is_const():
+            col.unk(R, fi, "compute_children_in_level: row selection and level filter", f"row {row.short(60)} / filter {flt.short(80)}", node=fi.node)
+        else:
+            col.check(off.eq(Rat.const(-1)), R, fi, "branch b of level l contributes row b-1 of the (child branch, branch point) table",
+                      "children_row_and_col[b - 1] for levels[b] == l",
+                      f"branch b selects row b{'+' if off.const_value() >= 0 else ''}{off.const_value()}: row b-1 belongs to child branch b (branch 0 "
+                      f"is the root and has no row); another row attaches the wrong branch", node=fi.node)
+            col.check(rng[0].eq(ONE) and rng[1].eq(M + ONE), R, fi, "children levels run from 1 to max(levels)", "range(1, max(levels) + 1)",
+                      f"levels are iterated over range({rng[0]}, {rng[1]}) with M = max(levels): every level 1..M has children that must be "
+                      f"eliminated", node=fi.node)
     fi = repo.func(CUF, "compute_parents_in_level")
-    src = unparse(fi.node).replace(" ", "")
-    ok = "level_of_parent=levels[par_inds]" in src and "forlinrange(np.max(levels)):" in src and \
-        "np.where(level_of_parent==l)[0]" in src and "parents_row_and_col[parents_inds_in_current_level]" in src
-    wrong = "range(1,np.max(levels)+1)" in src or "range(np.max(levels)+1)" in src or "level_of_parent==l+1" in src or "levels[child_inds]" in src
-    col.add(R, fi, "parents of level l are the parent branches whose own level is l, l = 0..max-1",
-            "DISCHARGED" if ok else ("VIOLATED" if wrong else "UNDECIDED"),
-            "levels[par_inds] == l for l in range(max(levels))" if ok else
-            "the parents eliminated together with the children of level l+1 must be the branches of level l", node=fi.node)
+    ts = all_terms(idxm.expander(repo, fi))
+    row = flt = None
+    for t_ in ts:
+        row = row or T.find(t_, lambda x: x.op == "sub" and x.args[0].op == "param" and x.args[0].name == "parents_row_and_col")
+        flt = flt or T.find(t_, lambda x: x.op == "cmp" and x.name == "==" and len(x.args) == 2 and
+                            any(a_.op == "sub" and a_.args[0].op == "param" and a_.args[0].name == "levels" for a_ in x.args))
+    if row is None or flt is None:
+        col.unk(R, fi, "compute_parents_in_level: row selection and level filter", "building blocks not found", node=fi.node)
+    else:
+        lv_side = next(a_ for a_ in flt.args if a_.op == "sub" and a_.args[0].op == "param" and a_.args[0].name == "levels")
+        l_side = next(a_ for a_ in flt.args if a_ is not lv_side)
+        by_parent = lv_side.args[1].op == "param" and lv_side.args[1].name == "par_inds"
+        uses_filter = T.find(row.args[1], lambda x: x.key() == flt.key()) is not None
+        try:
+            l_el = T.find(l_side, lambda x: x.op == "elem")
+            rng = level_range(l_el) if l_el is not None else None
+            shift = term_rat(l_side, lvl_leaf) - term_rat(l_el, lvl_leaf) if l_el is not None else None
+        except Und:
+            rng, shift = None, None
+        if rng is None or shift is None or not shift.is_const():
+            col.unk(R, fi, "compute_parents_in_level: level filter", flt.short(100), node=fi.node)
+        else:
+            lo, hi = rng[0] + shift, rng[1] + shift
+            ok = by_parent and uses_filter and lo.eq(ZERO) and hi.eq(M)
+            col.check(ok, R, fi, "parents of level l are the parent branches whose own level is l, l = 0..max-1",
+                      "parents_row_and_col[where(levels[par_inds] == l)] for l in range(max(levels))",
+                      f"rows are selected by `{flt.short(80)}` for levels {lo}..{hi} (exclusive), indexed by "
+                      f"{'the parent branches' if by_parent else lv_side.args[1].short(30)}: the parents eliminated together with the children "
+                      f"of level l+1 must be the branches of level l", node=fi.node)
     # group_and_sum: additive scatter from zeros
     fi = repo.func(CUF, "group_and_sum")
     ex = idxm.expander(repo, fi)
